@@ -164,10 +164,40 @@ static bool run_probe(std::string const& name) {
 		volatile auto n = B.size(); (void)n;
 		return true;
 	}
-	if(name == "reextent_rebased") {  // valid: reextent of a re-based array to extensions with another first index
-		multi::array<int, 2> A(multi::extensions_t<2>{{1, 4}, {2, 5}}, 7);
-		A.reextent(multi::extensions_t<2>{{2, 6}, {2, 5}}, 0);
-		volatile int x = A[2][2]; (void)x;
+	if(name == "reextent_rebased") {  // valid (fixed by 97e4116): reextent of a re-based array to extensions with another first index
+		multi::array<int, 2> A(multi::extensions_t<2>{{1, 4}, {2, 5}}, 0);
+		for(auto i : A.extension()) { for(auto j : A[i].extension()) { A[i][j] = 10*static_cast<int>(i) + static_cast<int>(j); } }
+		A.reextent(multi::extensions_t<2>{{2, 6}, {2, 5}}, -1);
+		if(A.extension().first() != 2 || A.extension().last() != 6) { _exit(78); }
+		if(A[2][2] != 22 || A[3][4] != 34 || A[4][2] != -1 || A[5][4] != -1) { _exit(78); }  // common block kept, new cells filled
+		multi::array<int, 2> B(multi::extensions_t<2>{{1, 4}, {2, 5}}, 7);
+		B.reextent(multi::extensions_t<2>{{0, 3}, {3, 6}});  // the overload without a fill value
+		if(B[1][3] != 7 || B[2][4] != 7) { _exit(78); }
+		return true;
+	}
+	if(name == "reextent_disjoint") {  // valid (3905732): nothing in common, from and to empty arrays (null base)
+		multi::array<int, 2> A({2, 3}, 7);
+		A.reextent(multi::extensions_t<2>{{5, 7}, {0, 3}}, 1);
+		if(A[5][0] != 1 || A[6][2] != 1) { _exit(78); }
+		multi::array<int, 2> E({0, 5});
+		E.reextent({2, 5}, 4);
+		if(E[1][4] != 4) { _exit(78); }
+		E.reextent({0, 5}, 4);
+		if(E.num_elements() != 0) { _exit(78); }
+		E.reextent({3, 0});
+		return true;
+	}
+	if(name == "reshape_count_differs") {  // mismatched: reshape to another element count must be stopped (array.hpp:1239)
+		multi::array<int, 2> A({2, 3}, 7);
+		A.reshape({2, 4});
+		volatile int x = A[1][3]; (void)x;
+		return true;
+	}
+	if(name == "reshape_same_count") {  // control: valid reshape, elements stay in flat order
+		multi::array<int, 2> A({2, 3}, 0);
+		for(int k = 0; k != 6; ++k) { A.data_elements()[k] = k; }
+		A.reshape({3, 2});
+		if(A.size() != 3 || A[2][1] != 5 || A[1][0] != 2) { _exit(78); }
 		return true;
 	}
 	if(name == "reextent_same_base") {  // control: same first indices
